@@ -25,8 +25,10 @@ class World:
         self.ifaces = {}
         self.strings = {}
 
+    low_heap = False        # hand out addresses below 4 GiB
+
     def put(self, data):
-        a = self.mem.alloc(len(data))
+        a = self.mem.alloc(len(data), low=self.low_heap)
         if data:
             self.mem.write(a, data)
         return a
